@@ -7,6 +7,16 @@ import (
 	"strings"
 )
 
+// attributeEscaper escapes everything that can end an attribute value that is
+// surrounded by double quotes, or start a tag. A single quote is left alone
+// because it is used by the scripts of some attributes (like onclick).
+var attributeEscaper = strings.NewReplacer(
+	`&`, "&amp;",
+	`"`, "&#34;",
+	`<`, "&lt;",
+	`>`, "&gt;",
+)
+
 type Tag struct {
 	tag        string
 	attributes map[string]string
@@ -33,7 +43,9 @@ func (c *Tag) WriteHTMLTo(w io.Writer) (int64, error) {
 	for _, name := range names {
 		value := c.attributes[name]
 		if value != "" {
-			attributes += fmt.Sprintf(`%s="%s" `, name, value)
+			// The value can come from the file (like a surname in a link).
+			attributes += fmt.Sprintf(`%s="%s" `, name,
+				attributeEscaper.Replace(value))
 		}
 	}
 
